@@ -250,3 +250,37 @@ impl<'a> YamlSerializer<'a> {
                 same_pos(final(self), old(self)),
     { Self::write_single_quoted__out(self.out, s) }
 }
+
+/// `write!(s, "\\u{:04X}", v)` into a String (cannot fail)
+#[verifier::external_body]
+fn string_write_u4(out: &mut String, v: u32)
+    requires v <= 0xFFFF,
+    ensures final(out)@ == old(out)@ + seq!['\\', 'u', hex_digit(v / 4096), hex_digit((v / 256) % 16), hex_digit((v / 16) % 16), hex_digit(v % 16)],
+{ unimplemented!() }
+
+// ---- ASCII string helpers for src/zmij_format.rs (for ASCII text byte offsets are character offsets) ----
+#[verifier::external_body]
+fn ascii_len(s: &str) -> (r: usize) requires all_ascii(s@), ensures r == s@.len(), { s.len() }
+/// `s.find(c)`
+#[verifier::external_body]
+fn ascii_find(s: &str, c: char) -> (r: Option<usize>)
+    requires all_ascii(s@),
+    ensures match r { Some(i) => first_index_of(s@, c) == Some(i as int), None => first_index_of(s@, c) is None },
+{ s.find(c) }
+/// `&s[a..b]`
+#[verifier::external_body]
+fn ascii_slice<'a>(s: &'a str, a: usize, b: usize) -> (r: &'a str)
+    requires all_ascii(s@), a <= b <= s@.len(),
+    ensures r@ == s@.subrange(a as int, b as int), all_ascii(r@),
+{ &s[a..b] }
+/// `s.contains(c)`
+#[verifier::external_body]
+fn ascii_contains(s: &str, c: char) -> (r: bool)
+    ensures r == has_char(s@, c),
+{ s.contains(c) }
+/// `matches!(s.as_bytes().get(i), Some(b'+' | b'-'))`
+#[verifier::external_body]
+fn ascii_sign_at(s: &str, i: usize) -> (r: bool)
+    requires all_ascii(s@),
+    ensures r == (i < s@.len() && (s@[i as int] == '+' || s@[i as int] == '-')),
+{ matches!(s.as_bytes().get(i), Some(b'+' | b'-')) }
